@@ -12,6 +12,7 @@ pub uninterp spec fn lock_path() -> Seq<char>;
 // project differs from the start of the run.  Required before EVERY mutating operation (= at every boundary
 // between two filesystem operations, i.e. every crash point) and proved again at the end of every function.
 pub open spec fn atomic_inv(w: World) -> bool {
+    &&& !is_temp(lock_path())
     &&& forall|p: Seq<char>| #[trigger] w.protected.contains(p) ==>
             w.fs.dom().contains(p) && w.orig.dom().contains(p) && !is_temp(p) && p != lock_path()
             && (w.fs[p] == w.orig[p] || (w.intended.dom().contains(p) && w.fs[p] == w.intended[p]))
@@ -20,7 +21,7 @@ pub open spec fn atomic_inv(w: World) -> bool {
 }
 
 pub open spec fn same_but_fs(a: World, b: World) -> bool {
-    a.orig == b.orig && a.protected == b.protected && a.files == b.files && a.intended == b.intended
+    a.orig == b.orig && a.protected == b.protected && a.files == b.files && a.intended == b.intended && a.alloc == b.alloc
     && a.check_mode == b.check_mode && a.counter == b.counter && a.issued == b.issued
     && a.handlers == b.handlers && a.stop_seen == b.stop_seen && a.log == b.log
 }
@@ -35,6 +36,13 @@ pub proof fn declare_intended(tracked w: &mut World, p: Seq<char>, content: Seq<
     ensures
         final(w).intended == old(w).intended.insert(p, content),
         final(w).fs == old(w).fs, final(w).log == old(w).log, same_but_fs(World { intended: final(w).intended, ..*old(w) }, *final(w)),
+{ admit(); }
+
+// ghost bookkeeping: remember the first ID of a file that has just been replaced
+pub proof fn record_alloc(tracked w: &mut World, p: Seq<char>, first: int)
+    ensures
+        final(w).alloc == old(w).alloc.insert(p, first),
+        final(w).fs == old(w).fs, final(w).log == old(w).log, same_but_fs(World { alloc: final(w).alloc, ..*old(w) }, *final(w)),
 { admit(); }
 
 #[derive(Debug)]
